@@ -496,6 +496,7 @@ class MultiTrackLargeVocabularyNotelikeTokeniser:
             if self.flag_fuse_velocity:
                 token += f"{TokenisationPrefixes.VELOCITY.value}_{parts.pop(0):03}"
 
+            token = token.rstrip("-")
             self.dictionary[token] = self.dictionary_size
             self._dictionary_size += 1
 
